@@ -44,6 +44,7 @@ pub fn all() -> Vec<Box<dyn Family>> {
         Box::new(corpus::Corpus),
         Box::new(text::strings()),
         Box::new(text::tokens()),
+        Box::new(text::numerals()),
         Box::new(text::Ladders),
         Box::new(text::CorpusMut),
         Box::new(parse_rt::ParseTrees),
